@@ -9,6 +9,7 @@ namespace verif {
 
 struct FamEdge {
     unsigned i, j;
+    double w = -1; // explicit weight (>= 0) for the weighted families, -1: decided by the case's weight mode
 };
 
 // returns number of vertices; fills edges (directed orientation "forward")
@@ -75,6 +76,22 @@ inline size_t familyEdges(const std::string &fam, long long a, long long b, std:
             next = join + 1;
         }
         return next;
+    }
+    if (fam == "fanin") {
+        // a hub that is improved a times before it is settled, with fan-out b; non-dyadic weights.
+        // source 0 -> a_i (weight i*d) -> hub (weight W - 2*i*d): the hub's tentative distance drops a times while
+        // stale copies of it wait in the queue; every stale scan of a correct search relaxes nothing.
+        size_t m = (size_t)clamp(a, 1, 24), L = (size_t)clamp(b, 1, 48);
+        const double d = 0.013, W = 10.1;
+        unsigned hub = (unsigned)(m + 1);
+        out.push_back({0u, hub, W});
+        for (unsigned i = 1; i <= m; ++i) {
+            out.push_back({0u, i, i * d});
+            out.push_back({i, hub, W - 2.0 * i * d});
+        }
+        for (unsigned j = 0; j < L; ++j)
+            out.push_back({hub, (unsigned)(m + 2 + j), 0.1 * (j + 1) + 0.007});
+        return m + 2 + L;
     }
     if (fam == "looppath") { // path with a self-loop on every vertex (both directions)
         size_t n = (size_t)clamp(a, 2, 150);
